@@ -11,7 +11,7 @@ use crate::provenance::proof_tree::{
 };
 use crate::provenance::unification::{
     evaluate_comparison, find_matching_tuples, format_bound_terms, resolve_term_pub,
-    substitute_atom, unify_head,
+    substitute_atom, unify_head, Bindings,
 };
 use crate::provenance::Blocker;
 use crate::value::{Tuple, Value};
@@ -158,11 +158,18 @@ pub fn explain_why_not(relation: &str, target: &Tuple, ctx: &ProofContext<'_>) -
                             }
 
                             // Found in derived_data
-                            let (_, new_binds) = &derived_matches[0];
+                            let chosen = best_match(
+                                &derived_matches,
+                                &rule.body,
+                                pred_idx + 1,
+                                &current_bindings,
+                                ctx,
+                            );
+                            let (matched_tuple, new_binds) = &derived_matches[chosen];
                             current_bindings.extend(new_binds.clone());
-                            let arity = derived_matches[0].0.arity().min(atom.args.len());
+                            let arity = matched_tuple.arity().min(atom.args.len());
                             let matched_vals: Vec<Value> = (0..arity)
-                                .filter_map(|i| derived_matches[0].0.get(i).cloned())
+                                .filter_map(|i| matched_tuple.get(i).cloned())
                                 .collect();
                             let id = builder.insert_unique(ProofNode {
                                 kind: NodeKind::Fact,
@@ -183,7 +190,14 @@ pub fn explain_why_not(relation: &str, target: &Tuple, ctx: &ProofContext<'_>) -
                             body_children.push(id);
                         } else {
                             // This body atom SUCCEEDED - record the matching fact
-                            let (matched_tuple, new_binds) = &matches[0];
+                            let chosen = best_match(
+                                &matches,
+                                &rule.body,
+                                pred_idx + 1,
+                                &current_bindings,
+                                ctx,
+                            );
+                            let (matched_tuple, new_binds) = &matches[chosen];
                             current_bindings.extend(new_binds.clone());
                             let matched_vals: Vec<Value> = (0..matched_tuple.arity())
                                 .filter_map(|i| matched_tuple.get(i).cloned())
@@ -412,6 +426,110 @@ pub fn explain_why_not(relation: &str, target: &Tuple, ctx: &ProofContext<'_>) -
     });
 
     builder.finish(vec![root_id])
+}
+
+/// Bound on the work of one look-ahead in [`best_match`], in tuples compared. Beyond it
+/// the look-ahead settles for the best match found so far.
+const LOOKAHEAD_BUDGET: usize = 5_000_000;
+
+/// Choose the match of a body atom to continue the trace with: the first one under which
+/// most of the remaining predicates `body[next..]` hold in sequence (all of them, if the
+/// clause derives the target with this match).
+///
+/// Taking the first match unconditionally is wrong: it may lead to a dead end while
+/// another match satisfies the rest of the body, and the clause would be reported as
+/// blocked although it derives the target.
+fn best_match(
+    matches: &[(Tuple, Bindings)],
+    body: &[BodyPredicate],
+    next: usize,
+    bindings: &Bindings,
+    ctx: &ProofContext<'_>,
+) -> usize {
+    if matches.len() < 2 || next >= body.len() {
+        return 0;
+    }
+    let mut budget = LOOKAHEAD_BUDGET;
+    let mut best = (0, 0);
+    for (i, (_, new_binds)) in matches.iter().enumerate() {
+        let mut extended = bindings.clone();
+        extended.extend(new_binds.clone());
+        let reach = satisfiable_prefix(body, next, &extended, ctx, &mut budget);
+        if reach > best.1 {
+            best = (i, reach);
+        }
+        if reach == body.len() - next || budget == 0 {
+            break;
+        }
+    }
+    best.0
+}
+
+/// How many of the predicates `body[from..]` hold in sequence, at best, under `bindings`
+/// (`body.len() - from` if the rest of the body is satisfiable). A positive atom is
+/// matched against the stored facts and, if none matches, the derived facts, like in the
+/// trace of [`explain_why_not`]; a negated atom is blocked by a stored or a derived fact.
+fn satisfiable_prefix(
+    body: &[BodyPredicate],
+    from: usize,
+    bindings: &Bindings,
+    ctx: &ProofContext<'_>,
+    budget: &mut usize,
+) -> usize {
+    let Some(pred) = body.get(from) else {
+        return 0;
+    };
+    let size_of = |relation: &str| {
+        ctx.base_data.get(relation).map_or(0, Vec::len)
+            + ctx
+                .derived_data
+                .and_then(|d| d.get(relation))
+                .map_or(0, Vec::len)
+            + 1
+    };
+    match pred {
+        BodyPredicate::Positive(atom) => {
+            let bound = substitute_atom(atom, bindings);
+            *budget = budget.saturating_sub(size_of(&atom.relation));
+            let mut matches = find_matching_tuples(&atom.relation, &bound, ctx.base_data);
+            if matches.is_empty() {
+                if let Some(derived) = ctx.derived_data {
+                    matches = find_matching_tuples(&atom.relation, &bound, derived);
+                }
+            }
+            let mut best = 0;
+            for (_, new_binds) in matches {
+                let mut extended = bindings.clone();
+                extended.extend(new_binds);
+                best = best.max(1 + satisfiable_prefix(body, from + 1, &extended, ctx, budget));
+                if best == body.len() - from || *budget == 0 {
+                    break;
+                }
+            }
+            best
+        }
+        BodyPredicate::Negated(atom) => {
+            let bound = substitute_atom(atom, bindings);
+            *budget = budget.saturating_sub(size_of(&atom.relation));
+            let blocked = !find_matching_tuples(&atom.relation, &bound, ctx.base_data).is_empty()
+                || ctx.derived_data.is_some_and(|derived| {
+                    !find_matching_tuples(&atom.relation, &bound, derived).is_empty()
+                });
+            if blocked {
+                0
+            } else {
+                1 + satisfiable_prefix(body, from + 1, bindings, ctx, budget)
+            }
+        }
+        BodyPredicate::Comparison(lhs, op, rhs) => {
+            match evaluate_comparison(lhs, op, rhs, bindings) {
+                Ok(true) => 1 + satisfiable_prefix(body, from + 1, bindings, ctx, budget),
+                Ok(false) | Err(_) => 0,
+            }
+        }
+        // The trace reports a vector search as the blocker of its clause
+        BodyPredicate::HnswNearest { .. } => 0,
+    }
 }
 
 /// Format a why-not proof tree as human-readable text for CLI output.
